@@ -154,6 +154,16 @@ func (a *c11Acc) try(name string, f func()) {
 	f()
 }
 
+func (a *c11Acc) panicked() bool { a.mu.Lock(); defer a.mu.Unlock(); return a.panic != "" }
+
+func (a *c11Acc) notePanic(name string) {
+	a.mu.Lock()
+	if a.panic == "" {
+		a.panic = name
+	}
+	a.mu.Unlock()
+}
+
 func (a *c11Acc) noteDepth(d int) {
 	a.mu.Lock()
 	if d > a.depth {
@@ -451,7 +461,7 @@ func (r *c11Rec) handler() *imapclient.UnilateralDataHandler {
 	guard := func(f func()) {
 		defer func() {
 			if v := recover(); v != nil {
-				r.add("handler-panic")
+				r.acc.notePanic("FetchMessageData.Collect(unilateral)")
 			}
 		}()
 		f()
@@ -796,11 +806,11 @@ func c11Caps(caps imap.CapSet) {
 }
 
 func c11Settle(base int) {
-	for i := 0; i < 4000; i++ {
+	for i := 0; i < 20000; i++ {
 		if runtime.NumGoroutine() <= base {
 			return
 		}
-		if i == 3999 && os.Getenv("C11_DEBUG") != "" {
+		if i == 19999 && os.Getenv("C11_DEBUG") != "" {
 			buf := make([]byte, 1<<16)
 			os.Stderr.Write(buf[:runtime.Stack(buf, true)])
 		}
@@ -824,7 +834,13 @@ func c11Run(spec string, stream []byte) string {
 	} else {
 		sc.Write([]byte(c11Greeting))
 	}
-	cl := imapclient.New(c11Conn{cc, new(atomic.Bool)}, &imapclient.Options{UnilateralDataHandler: rec.handler()})
+	opts := &imapclient.Options{UnilateralDataHandler: rec.handler()}
+	if strings.HasPrefix(spec, "noh+") {
+		// no handler: the library discards unilateral data in goroutines of its own
+		spec = spec[4:]
+		opts = nil
+	}
+	cl := imapclient.New(c11Conn{cc, new(atomic.Bool)}, opts)
 	if !raw {
 		cl.WaitGreeting() // the capabilities of the greeting decide how commands are written
 	}
@@ -845,9 +861,24 @@ func c11Run(spec string, stream []byte) string {
 		sc.Write(stream)
 		c11CloseWrite(sc)
 	}
-	cmdClass, data := finish()
+	// Wait()/Collect() run in the caller: a panic there is a panic of an accessor
+	cmdClass, data := "err", "-"
+	a.try("Wait/Collect", func() { cmdClass, data = finish() })
 	decClass := "none"
-	if err := cl.Close(); err != nil {
+	closed := make(chan error, 1)
+	go func() { closed <- cl.Close() }()
+	var err error
+	if a.panicked() || sa.panicked() {
+		// the consumer died half-way: the reader may wait for it forever, and that is not news
+		select {
+		case err = <-closed:
+		case <-time.After(3 * time.Second):
+			err = errors.New("stuck behind a consumer that panicked")
+		}
+	} else {
+		err = <-closed
+	}
+	if err != nil {
 		decClass = "err"
 		if strings.Contains(err.Error(), "panic reading response") {
 			decClass = "panic"
@@ -1007,6 +1038,21 @@ func c11Cost(shape string, n int) string {
 	t1, a1, c1 := c11Measure(s1, st1, 3)
 	t2, a2, c2 := c11Measure(s1, st2, 3)
 	return fmt.Sprintf("%d|%d|%d|%d|%d|%d|%s|%s", t1.Microseconds(), t2.Microseconds(), a1, a2, len(st1), len(st2), c1, c2)
+}
+
+// c11Suspect mirrors the thresholds of Spec.judgeCost (which decides); it only selects what is
+// measured a second time.
+func c11Suspect(ans string) bool {
+	f := strings.Split(ans, "|")
+	if len(f) < 6 {
+		return ans == "timeout" || ans == "crash"
+	}
+	var v [6]uint64
+	for i := range v {
+		v[i], _ = strconv.ParseUint(f[i], 10, 64)
+	}
+	t1, t2, a1, a2, l1, l2 := v[0], v[1], v[2], v[3], v[4], v[5]
+	return (t2 >= 1000000 && 10*t2 > 32*t1) || a1 > 64*l1+64<<20 || a2 > 64*l2+64<<20
 }
 
 func c11Worker(req string) string {
@@ -1451,7 +1497,7 @@ var c11Specs = []string{"search", "uidsearch", "esearch", "uidesearch", "sort", 
 var c11Modelled = map[string]bool{"search": true, "esearch": true, "sort": true, "thread": true, "fetch": true, "copy": true, "move": true, "append": true, "expunge": true, "noop": true}
 
 func c11Base(spec string) string {
-	spec = strings.TrimPrefix(strings.TrimPrefix(spec, "raw+"), "sel+")
+	spec = strings.TrimPrefix(strings.TrimPrefix(strings.TrimPrefix(spec, "raw+"), "noh+"), "sel+")
 	if i := strings.IndexByte(spec, ':'); i >= 0 {
 		spec = spec[:i]
 	}
@@ -1460,7 +1506,7 @@ func c11Base(spec string) string {
 
 // responses of the command itself
 func (g *c11Gen) own(spec string) []string {
-	uid := strings.HasPrefix(strings.TrimPrefix(spec, "sel+"), "uid")
+	uid := strings.HasPrefix(strings.TrimPrefix(strings.TrimPrefix(spec, "noh+"), "sel+"), "uid")
 	var out []string
 	switch c11Base(spec) {
 	case "search":
@@ -1481,7 +1527,7 @@ func (g *c11Gen) own(spec string) []string {
 		out = append(out, g.thread())
 	case "fetch":
 		for i, n := 0, 1+g.r.intn(3); i < n; i++ {
-			out = append(out, g.fetch(g.num(), true))
+			out = append(out, g.fetch(g.num(), g.r.chance(3, 4)))
 		}
 	case "list":
 		for i, n := 0, 1+g.r.intn(3); i < n; i++ {
@@ -1553,7 +1599,7 @@ func (g *c11Gen) tagged(spec string) string {
 }
 
 func c11Tag(spec string) string {
-	if strings.HasPrefix(spec, "sel+") {
+	if strings.HasPrefix(strings.TrimPrefix(spec, "noh+"), "sel+") {
 		return "T2"
 	}
 	return "T1"
@@ -1588,6 +1634,9 @@ func (g *c11Gen) spec() string {
 	}
 	if g.r.chance(1, 4) {
 		s = "sel+" + s
+	}
+	if g.r.chance(1, 8) {
+		s = "noh+" + s
 	}
 	return s
 }
@@ -1801,6 +1850,11 @@ func c11Corpus() []c11Case {
 		mk("fetch:1:*", "* 1 FETCH (BODY[] {5}\r\nab"), // truncated literal
 		mk("fetch:1:*", "* 1 FETCH (BODYSTRUCTURE ((\"a\" \"b\" NIL NIL NIL NIL 1) \"mixed\"))\r\n", ok), // NIL encoding
 		mk("liststatus", "* STATUS INBOX (MESSAGES 1)\r\n* LIST () \"/\" INBOX\r\n* STATUS INBOX (MESSAGES 1)\r\n", ok),
+		mk("fetch:1:*", "* 1 FETCH (BODY[] NIL)\r\n", ok),                                   // NIL section: Collect read from a nil reader
+		mk("fetch:1:*", "* 1 FETCH (BINARY[1] NIL BODY[TEXT] {2}\r\nhi)\r\n", ok),           // NIL section before a literal
+		mk("noop", "* 1 FETCH (BODY[] NIL UID 5)\r\n", ok),                                  // the same, unilateral
+		mk("noh+noop", "* 1 FETCH (BODY[] NIL UID 5)\r\n* 2 FETCH (BINARY[1] NIL)\r\n", ok), // the same, discarded by the library itself
+		mk("noh+fetch:1:*", "* 1 FETCH (UID 1)\r\n* 1 FETCH (BODY[] NIL)\r\n", ok),
 		mk("sel+expunge", "* 1 EXPUNGE\r\n* 1 EXPUNGE\r\n* 1 EXPUNGE\r\n* 1 EXPUNGE\r\n* OK [CLOSED] x\r\n* 1 EXPUNGE\r\n", "T2 OK done\r\n"),
 	}
 }
@@ -1969,8 +2023,16 @@ func genC11(e *emitter, tier string, seed uint64) {
 		pool := &workerPool{name: "c11", timeout: 120 * time.Second, memMB: 3072, maxBad: 20}
 		ans = pool.run(reqs)
 	}()
-	c11RunCases(e, cases, 10*time.Second)
+	c11RunCases(e, cases, 30*time.Second)
 	<-done
+	// a measurement that looks super-linear is taken again, alone, before it counts
+	for i := range costs {
+		if c11Suspect(ans[i]) {
+			pool := &workerPool{name: "c11", timeout: 240 * time.Second, memMB: 3072}
+			ans[i] = pool.run([]string{reqs[i]})[0]
+			e.count("cost:remeasured-alone")
+		}
+	}
 	for i, c := range costs {
 		e.emit("cost", c[0], c[1], ans[i])
 		e.count("cost:" + c[0])
